@@ -327,6 +327,37 @@ def checkRandomState : Seed → RngOut
   | .generator => .same
   | .other => .valueError
 
+/-! ### argument validation of the generators (the `ValueError` branches) -/
+
+inductive ArgOut | ok | valueError
+deriving DecidableEq, Repr
+
+/-- `sample_without_replacement(n, k)`: `n <= 0` and `k > n` are rejected by the function itself,
+    `k < 0` by `random(size=k)` (also a `ValueError`) -/
+def swrArgs (n k : Int) : ArgOut :=
+  if n ≤ 0 then .valueError else if k > n then .valueError else if k < 0 then .valueError else .ok
+
+section covargs
+variable {α : Type} [One α] [Neg α] [Div α] [LE α] [DecidableLE α]
+
+/-- `covariance_game(nums_actions, rho)`: `N <= 1` or `not (-1/(N-1) <= rho <= 1)` raise;
+    `ofN` injects `N - 1` into the scalars -/
+def covArgs (ofN : Nat → α) (N : Nat) (rho : α) : ArgOut :=
+  if N ≤ 1 then .valueError
+  else if (-1 / ofN (N - 1) ≤ rho) ∧ rho ≤ 1 then .ok else .valueError
+
+end covargs
+
+/-- `random_game` / `random_polymatrix_game`: an empty `nums_actions` is rejected -/
+def gameArgs (N : Nat) : ArgOut := if N = 0 then .valueError else .ok
+
+/-- `unit_vector_game(n, avoid_pure_nash)`: `avoid_pure_nash` with a single action is rejected -/
+def uvArgs (n : Nat) (avoid : Bool) : ArgOut := if avoid ∧ n = 1 then .valueError else .ok
+
+def showArgOut : ArgOut → String
+  | .ok => "ok"
+  | .valueError => "ERR:ValueError"
+
 /-! ### line protocol -/
 
 open QE
@@ -456,6 +487,29 @@ def handle (toks : List String) : String :=
       let p := saIndices ns na
       showList toString (p.map Prod.fst) ++ " | " ++ showList toString (p.map Prod.snd)
     | _, _ => "bad-op"
+  | "args" :: r =>
+    match kv r "fn" with
+    | some "swr" =>
+      match kvInt r "n", kvInt r "k" with
+      | some n, some k => showArgOut (swrArgs n k)
+      | _, _ => "bad-op"
+    | some "cov" =>
+      match kvNat r "N", kvFloats r "rho" with
+      | some N, some [rho] => showArgOut (covArgs floatOfNat N rho)
+      | _, _ => "bad-op"
+    | some "covq" =>
+      match kvNat r "N", kvRat r "rho" with
+      | some N, some rho => showArgOut (covArgs (fun (c : Nat) => (c : Rat)) N rho)
+      | _, _ => "bad-op"
+    | some "game" =>
+      match kvNat r "N" with
+      | some N => showArgOut (gameArgs N)
+      | _ => "bad-op"
+    | some "uv" =>
+      match kvNat r "n", kvNat r "avoid" with
+      | some n, some a => if a > 1 then "bad-op" else showArgOut (uvArgs n (a = 1))
+      | _, _ => "bad-op"
+    | _ => "bad-op"
   | "crs" :: r =>
     match kv r "seed" with
     | some s =>
